@@ -10,7 +10,7 @@
    hypothesis on the clients (any number of concurrent requests may name the same id), and
    refuted for `old_variant` by the witness that the harness corpus still replays on the
    implementation. K runs `step code_variant`. *)
-From LR Require Import lib.Base model.CList model.Provider proofs.CListP proofs.ProviderP.
+From LR Require Import lib.Base model.CList model.Provider model.Querier proofs.CListP proofs.ProviderP proofs.QuerierP.
 
 Definition final (v : variant) (max : nat) (idle busyto : Z) (ops : list op) : prov := fst (fst (run v (init max idle busyto) ops)).
 Definition outcome_of (v : variant) (max : nat) (idle busyto : Z) (ops : list op) : outcome unit := snd (run v (init max idle busyto) ops).
@@ -273,6 +273,97 @@ Example C15_shutdown_busy :
   p_curs s = [] /\ c_live (p_cur s 0) = true /\ p_acq s 0%N = 1%Z /\ p_max s = 10 /\
   c_rels (p_cur s' 0) = 1 /\ p_acq s' 0%N = 0%Z /\ p_act s' = [].
 Proof. vm_compute. repeat split; reflexivity. Qed.
+
+(* ------------------------------------------------------------------ the callers: every GetOrCreate gets its Release *)
+(* The provider is used by ServerQuerier.query (api/rpc/querier.go) and backend.Querier.Query (pkg/backend/querier.go).
+   model/Querier.v: a request is the block lookup, create, insert, use, release of one actor (`query_ops`; a step the
+   Go code skips on some path is a step that is not enabled in the model). `paired ops`: in the history every actor's
+   steps come in whole blocks -- every GetOrCreate is followed by exactly one Release, nothing else is asked of the
+   callers; blocks of different requests, the sweeps, the clock and Shutdown interleave freely. *)
+Definition pairing_statement (needs_pairing : bool) : Prop :=
+  forall v max idle busyto ops, (needs_pairing = true -> paired ops = true) ->
+    outcome_of v max idle busyto ops = Ok tt ->
+    forall r, act_get (p_act (final v max idle busyto ops)) r = AIdle.
+
+(* whatever the variant of the provider: after such a history no request is in flight, none holds a cursor *)
+Theorem C15_querier_pairs : pairing_statement true.
+Proof.
+  intros v max idle busyto ops P H r.
+  apply (paired_run v ops (init max idle busyto) [] (PhOK_init max idle busyto) (P eq_refl) H r).
+Qed.
+Print Assumptions C15_querier_pairs.
+
+(* the queriers produce such histories: each request is one block (or nothing, if it is answered before the provider
+   is called), and blocks one after the other stay paired *)
+Theorem C15_querier_blocks : forall early0 r rq k,
+  paired (query_ops early0 r rq k) = true /\
+  forall ops, paired ops = true -> paired (ops ++ query_ops early0 r rq k) = true.
+Proof.
+  intros early0 r rq k. split; [apply query_ops_paired|].
+  intros ops H. apply paired_from_app; [exact H|apply query_ops_paired].
+Qed.
+Print Assumptions C15_querier_blocks.
+
+(* ... and for the code as it is nothing in the cache is busy then (with C15_no_panic the hypothesis on the outcome is
+   void): a busy cache entry is always in the hands of a request *)
+Theorem C15_busy_is_held : forall max idle busyto ops,
+  let s := final code_variant max idle busyto ops in
+  (forall k e, map_get (p_curs s) k = Some e -> h_busy (p_vals s e) = true ->
+     exists r c, act_get (p_act s) r = AHold c /\ h_cur (p_vals s e) = Some c) /\
+  (paired ops = true -> (forall r, act_get (p_act s) r = AIdle) /\
+     forall k e, map_get (p_curs s) k = Some e -> h_busy (p_vals s e) = false).
+Proof.
+  intros max idle busyto ops s. pose proof (inv_reach max idle busyto ops) as HI. fold (final code_variant max idle busyto ops) in HI. fold s in HI.
+  split; [exact (inv_busy_held false s HI)|]. intros P.
+  assert (Idle : forall r, act_get (p_act s) r = AIdle).
+  { intros r. apply (C15_querier_pairs code_variant max idle busyto ops (fun _ => P)). apply C15_no_panic. }
+  split; [exact Idle|]. intros k e Hm. destruct (h_busy (p_vals s e)) eqn:Hb; [|reflexivity].
+  destruct (inv_busy_held false s HI k e Hm Hb) as (r & c & Hr & _). rewrite Idle in Hr. discriminate Hr.
+Qed.
+Print Assumptions C15_busy_is_held.
+
+(* a caller that returns on some path without Release (here: the block of request 0 lacks its release): the request
+   stays in flight for ever, its cursor busy in the cache, and every later request for the id is refused *)
+Theorem C15_querier_unreleased_refuted : ~ pairing_statement false.
+Proof.
+  intros H.
+  specialize (H code_variant 10 3%Z 7%Z [OLookup 0 5 true 0 (QParts [0%N]) PHead 100; OCreate 0; OInsert 0; OUse 0 2]
+                (fun E => ltac:(discriminate E)) eq_refl 0).
+  vm_compute in H. discriminate H.
+Qed.
+Print Assumptions C15_querier_unreleased_refuted.
+
+Example C15_unreleased_blocks_the_id :
+  let ops := [OLookup 0 5 true 0 (QParts [0%N]) PHead 100; OCreate 0; OInsert 0; OUse 0 2] in
+  let s := final code_variant 10 3 7 ops in
+  paired ops = false /\ act_get (p_act s) 0 = AHold 0 /\
+  results_of code_variant 10 3 7 (ops ++ query_ops true 1 {| q_wait := 1; q_limit := 10; q_id := 5; q_query := 0; q_qr := QParts [0%N]; q_pos := PAt 2; q_fresh := 101 |} 0)
+    = [RMiss; RNew 0; RInserted; RDone; RRefused; RNone; RNone; RNone; RNone].
+Proof. vm_compute. repeat split; reflexivity. Qed.
+
+(* a caller that calls Release twice for one GetOrCreate (model/Querier.v release_again: the locked region of Release for a
+   cursor the caller has given back already): if the cursor sits idle in the cache the provider panics; if another
+   request has been handed it meanwhile, it is marked idle under that request and a third one gets it as well *)
+Theorem C15_querier_double_release_refuted :
+  (exists max idle busyto ops c, outcome_of code_variant max idle busyto ops = Ok tt /\ paired ops = true /\
+     release_again (final code_variant max idle busyto ops) c = Panic) /\
+  (exists max idle busyto ops c s1 rq, outcome_of code_variant max idle busyto ops = Ok tt /\
+     release_again (final code_variant max idle busyto ops) c = Ok s1 /\
+     act_get (p_act s1) 1 = AHold c /\
+     exists s2 rs, steps code_variant s1 (start_ops 2 rq true) = Ok (s2, rs) /\
+       act_get (p_act s2) 1 = AHold c /\ act_get (p_act s2) 2 = AHold c).
+Proof.
+  split.
+  - exists 10, 3%Z, 7%Z, [OLookup 0 5 true 0 (QParts [0%N]) PHead 100; OCreate 0; OInsert 0; OUse 0 2; ORelease 0], 0.
+    vm_compute. repeat split; reflexivity.
+  - exists 10, 3%Z, 7%Z,
+      [OLookup 0 5 true 0 (QParts [0%N]) PHead 100; OCreate 0; OInsert 0; OUse 0 2; ORelease 0;
+       OLookup 1 5 true 0 (QParts [0%N]) (PAt 2) 101; OCreate 1; OInsert 1], 0.
+    eexists. exists {| q_wait := 1; q_limit := 10; q_id := 5; q_query := 0; q_qr := QParts [0%N]; q_pos := PAt 2; q_fresh := 102 |}.
+    split; [vm_compute; reflexivity|]. split; [vm_compute; reflexivity|]. split; [vm_compute; reflexivity|].
+    eexists. eexists. split; [vm_compute; reflexivity|]. split; vm_compute; reflexivity.
+Qed.
+Print Assumptions C15_querier_double_release_refuted.
 
 (* ------------------------------------------------------------------ resume *)
 (* unconditionally: a request naming an id the cache does not know (never seen, expired, evicted) is not refused:
